@@ -111,7 +111,7 @@ def mk_proc_from_parts(parts):
 
 def mk_hwprog(prog):
     pd = M("program_defs")
-    return [pd.HwInstruction(list(s), d, c) for s, d, c in prog]
+    return [pd.HwInstruction(s if not isinstance(s, list) else list(s), d, c) for s, d, c in prog]
 
 
 # ---------------------------------------------------------------- components
